@@ -184,14 +184,22 @@ impl PrettyParseError {
     /// The `source_file` parameter is used to print the error with the same format `rustc` does.
     pub fn from_parse_error(err: &ParseError, text: &str, source_file: Option<&str>) -> Self {
         let target_line = IndexedStringLineIterator::new(text)
-            .find(|l| l.start_offset <= err.position && l.end_offset >= err.position)
-            .unwrap();
+            .find(|l| l.start_offset <= err.position && l.end_offset > err.position)
+            .unwrap_or_else(|| {
+                // The position is after the last newline (or the text is empty):
+                // it is on the (empty) line after the last one.
+                IndexedStringLine {
+                    s: "",
+                    lineno: text.bytes().filter(|b| *b == b'\n').count(),
+                    start_offset: text.len(),
+                    end_offset: text.len() + 1,
+                }
+            });
         let character_position = target_line
             .s
             .char_indices()
-            .map(|(cp, _c)| cp)
-            .position(|cp| cp == err.position - target_line.start_offset)
-            .unwrap_or(0);
+            .take_while(|(cp, _c)| *cp < err.position - target_line.start_offset)
+            .count();
         let position = if let Some(f) = source_file {
             format!(
                 "{}:{:?}:{:?}",
